@@ -399,6 +399,7 @@ fn instantiate_struct_fields(
 }
 
 fn collect_runtime_types(
+    goenv: &GlobalGoEnv,
     file: &anf::File,
 ) -> (IndexSet<tast::Ty>, IndexSet<tast::Ty>, IndexSet<tast::Ty>) {
     struct Collector {
@@ -410,10 +411,25 @@ fn collect_runtime_types(
     impl Collector {
         fn collect_file(
             mut self,
+            goenv: &GlobalGoEnv,
             file: &anf::File,
         ) -> (IndexSet<tast::Ty>, IndexSet<tast::Ty>, IndexSet<tast::Ty>) {
             for item in &file.toplevels {
                 self.collect_fn(item);
+            }
+            for (_, def) in goenv.structs() {
+                if def.generics.is_empty() {
+                    for (_, ty) in &def.fields {
+                        self.collect_type(ty);
+                    }
+                }
+            }
+            for (_, def) in goenv.enums() {
+                for (_, fields) in &def.variants {
+                    for ty in fields {
+                        self.collect_type(ty);
+                    }
+                }
             }
             (self.tuples, self.arrays, self.refs)
         }
@@ -557,6 +573,7 @@ fn collect_runtime_types(
                         self.collect_type(elem);
                     }
                 }
+                tast::Ty::TVec { elem } => self.collect_type(elem),
                 tast::Ty::TStruct { name: _ } => {
                     // Vec types are handled as slices, no special collection needed
                 }
@@ -583,7 +600,7 @@ fn collect_runtime_types(
         arrays: IndexSet::new(),
         refs: IndexSet::new(),
     }
-    .collect_file(file)
+    .collect_file(goenv, file)
 }
 
 #[derive(Default)]
@@ -2242,7 +2259,7 @@ pub fn go_file(
     let goenv = GlobalGoEnv::from_anf_env(anfenv);
     let mut all = Vec::new();
 
-    let (tuple_types, array_types, ref_types) = collect_runtime_types(&file);
+    let (tuple_types, array_types, ref_types) = collect_runtime_types(&goenv, &file);
 
     all.extend(runtime::make_runtime());
     all.extend(runtime::make_array_runtime(&array_types));
